@@ -13,6 +13,7 @@ variable {R G : Type} [Scalar R] [RandGen G R]
 def CompModel.isRandom : CompModel R → Bool
   | .random .. => true
   | .uniform .. => false
+  | .tianWater .. => false
 
 def GrainsModel.isRandom : GrainsModel R → Bool
   | .uniform .. => false
@@ -22,15 +23,24 @@ def GrainsModel.isRandom : GrainsModel R → Bool
 def Models.NoRandom (ms : Models R) : Prop :=
   (∀ m ∈ ms.comps, m.isRandom = false) ∧ (∀ m ∈ ms.grains, m.isRandom = false)
 
-/-- slabs and faults have no random models in the model (their random grains models are not modelled yet) -/
+/-- the grains models of slabs and faults that draw random numbers (`drawn` is what `LineGrains.prepare` leaves behind: it draws nothing) -/
+def LineGrains.isRandom : LineGrains R → Bool
+  | .uniform .. => false
+  | .randomUniform .. => true
+  | .randomUniformDeflected .. => true
+  | .drawn .. => false
+
+def Segment.NoRandom (s : Segment R) : Prop := ∀ m ∈ s.grains, m.isRandom = false
+
+/-- slabs and faults: no random grains model in any segment of any section (their only models that draw random numbers) -/
 def Feature.NoRandom : Feature R → Prop
   | .area a => a.models.NoRandom
   | .plume p => p.models.NoRandom
-  | .line _ => True
+  | .line l => ∀ sec ∈ l.sections, ∀ s ∈ sec, s.NoRandom
 
 def Hit.NoRandom : Hit R → Prop
   | .areaLike _ ms .. => ms.NoRandom
-  | .line .. => True
+  | .line _ h => h.cur.NoRandom ∧ h.next.NoRandom
 
 def World.NoRandom (w : World R) : Prop := ∀ f ∈ w.features, f.NoRandom
 
@@ -51,12 +61,27 @@ theorem Feature.cover_noRandom (f : Feature R) (hnr : f.NoRandom) (ctx : Ctx R) 
     simp only [Feature.cover] at h
     cases hc : l.covers ctx q with
     | error e => simp [hc, Except.map] at h
-    | ok o => cases o <;> simp [hc, Except.map] at h; subst h; trivial
+    | ok o =>
+      cases o with
+      | none => simp [hc, Except.map] at h
+      | some lh =>
+        simp [hc, Except.map] at h; subst h
+        obtain ⟨⟨s1, hs1, hc1⟩, ⟨s2, hs2, hc2⟩⟩ := l.covers_mem ctx q lh hc
+        exact ⟨hnr s1 hs1 _ hc1, hnr s2 hs2 _ hc2⟩
 
 theorem CompModel.get_stateIndep (m : CompModel R) (h : m.isRandom = false) (ctx : Ctx R) (q : Query R) (n : Nat) (old : R) :
     StateIndep (G := G) (m.get ctx q n old) := by
   cases m with
   | random => simp [CompModel.isRandom] at h
+  | tianWater rng op comps spec =>
+    unfold CompModel.get
+    refine StateIndep.bind (StateIndep.liftE _) fun r => ?_
+    split
+    · exact StateIndep.pure _
+    · refine StateIndep.bind (StateIndep.liftE _) fun _ => ?_
+      split
+      · exact StateIndep.pure _
+      · split <;> exact StateIndep.pure _
   | uniform rng op comps fr =>
     unfold CompModel.get
     refine StateIndep.bind (StateIndep.liftE _) fun r => ?_
@@ -102,11 +127,46 @@ theorem paintAt_stateIndep (tag : Nat) (ms : Models R) (hnr : ms.NoRandom) (ctx 
   · exact StateIndep.bind (StateIndep.liftE _) fun _ => StateIndep.pure _
   · exact StateIndep.throw _
 
+theorem mapM_stateIndep_mem {α β : Type} (f : α → QM G β) (xs : List α) (hf : ∀ a ∈ xs, StateIndep (f a)) :
+    StateIndep (xs.mapM f) := by
+  induction xs with
+  | nil => simpa using StateIndep.pure (G := G) ([] : List β)
+  | cons x xs ih =>
+    rw [List.mapM_cons]
+    exact StateIndep.bind (hf x (by simp)) fun b =>
+      StateIndep.bind (ih (fun a ha => hf a (by simp [ha]))) fun bs => StateIndep.pure _
+
+/-- a grains model that is not random is left alone by the preparation, without a draw -/
+theorem LineGrains.prepare_stateIndep (m : LineGrains R) (h : m.isRandom = false) (isFault : Bool) (pd : PlaneDist R) (n : Nat)
+    (g0 : Grains R) : StateIndep (G := G) (m.prepare isFault pd n g0) := by
+  cases m with
+  | randomUniform => simp [LineGrains.isRandom] at h
+  | randomUniformDeflected => simp [LineGrains.isRandom] at h
+  | uniform mn mx comps mats sizes => exact StateIndep.pure _
+  | drawn g => exact StateIndep.pure _
+
+theorem Segment.prepare_stateIndep (s : Segment R) (hnr : s.NoRandom) (isFault : Bool) (q : Query R) (pd : PlaneDist R) (p : Req)
+    (g0 : Grains R) : StateIndep (G := G) (s.prepare isFault q pd p g0) := by
+  unfold Segment.prepare
+  split
+  · exact StateIndep.bind (StateIndep.liftE _) fun _ => StateIndep.pure _
+  · exact StateIndep.bind (mapM_stateIndep_mem _ _ (fun m hm => LineGrains.prepare_stateIndep m (hnr m hm) isFault pd p.n g0))
+      fun _ => StateIndep.pure _
+  · exact StateIndep.pure _
+
+theorem linePaintAtM_stateIndep (f : LineFeature R) (ctx : Ctx R) (q : Query R) (h : LineHit R)
+    (hnr : h.cur.NoRandom ∧ h.next.NoRandom) (p : Req) (e : Nat) (out : List R) :
+    StateIndep (G := G) (linePaintAtM f ctx q h p e out) := by
+  unfold linePaintAtM LineHit.prepare
+  refine StateIndep.bind ?_ fun _ => StateIndep.liftE _
+  exact StateIndep.bind (Segment.prepare_stateIndep h.cur hnr.1 f.isFault q h.pd p _) fun _ =>
+    StateIndep.bind (Segment.prepare_stateIndep h.next hnr.2 f.isFault q h.pd p _) fun _ => StateIndep.pure _
+
 theorem Hit.paintAt_stateIndep (hit : Hit R) (hnr : hit.NoRandom) (ctx : Ctx R) (q : Query R)
     (p : Req) (e : Nat) (out : List R) : StateIndep (G := G) (hit.paintAt ctx q p e out) := by
   cases hit with
   | areaLike tag ms a b r => exact Gwb.paintAt_stateIndep tag ms hnr ctx q a b r p e out
-  | line f h => exact StateIndep.liftE _
+  | line f h => exact linePaintAtM_stateIndep f ctx q h hnr p e out
 
 /-! ### block `i` of the batched loop is the single-request loop -/
 
@@ -276,7 +336,7 @@ theorem World.props3Blocks_nth (w : World R) (hnr : w.NoRandom) (pt : P3 R) (dep
       unfold World.props3Blocks
       simp [hsingle, hearly]
     · simp only [hearly, Bool.false_eq_true, if_false] at h
-      cases hfb : featuresBlocks w.features w.ctx ⟨pt, w.ctx.coord.toNatural pt, depth, w.ctx.gravity⟩ ps bs g with
+      cases hfb : featuresBlocks w.features w.ctx (w.query pt depth) ps bs g with
       | error e => simp [hfb] at h
       | ok r =>
         obtain ⟨bs1, g1⟩ := r
